@@ -731,3 +731,137 @@ func genRead(p *pkg, out string) {
 		"Lemma sync_dispatch : g_dispatch_mask = dispatch_mask /\\ g_dispatch_table = dispatch_table /\\ g_dispatch_default = dispatch_default.\nProof. vm_compute. repeat split; reflexivity. Qed.\n"
 	os.WriteFile(filepath.Join(out, "SyncRead.v"), []byte(lems), 0o644)
 }
+
+// ---------------------------------------------------------------- buffer.getAny
+
+func anyStmts(p *pkg, list []ast.Stmt, constVal func(ast.Expr) (string, bool)) string {
+	var out []string
+	for i := 0; i < len(list); i++ {
+		src := squash(p.src(list[i]))
+		// a declaration followed by the b.get that fills it is one step of the language
+		if i+1 < len(list) {
+			pair := src + ";" + squash(p.src(list[i+1]))
+			one := map[string]string{
+				"varpropLenvbint;b.get(&propLen)": "A_get_propLen",
+				"varpUserProp;b.get(&p)":          "A_get_userprop",
+				"varsubvbint;b.get(&sub)":         "A_get_sub",
+			}[pair]
+			if one != "" {
+				out = append(out, one)
+				i++
+				continue
+			}
+		}
+		out = append(out, anyStmt(p, list[i], constVal))
+	}
+	return "[" + strings.Join(out, "; ") + "]"
+}
+
+func anyStmt(p *pkg, s ast.Stmt, constVal func(ast.Expr) (string, bool)) string {
+	src := squash(p.src(s))
+	switch src {
+	case "ifb.atEnd(){return}":
+		return "A_if_atEnd_ret"
+	case "end:=b.i+int(propLen)":
+		return "A_def_end"
+	case "varidIdent":
+		return "A_var_id"
+	case "b.get(&id)":
+		return "A_get_id"
+	case "ifb.err!=nil{return}":
+		return "A_if_err_ret"
+	case "field,hasField:=fields[id]":
+		return "A_lookup_field"
+	case "b.get(field())":
+		return "A_get_field"
+	case "continue":
+		return "A_continue"
+	case "addProp(p)":
+		return "A_addProp"
+	case "b.addSubscriptionID(uint32(sub))":
+		return "A_call_addSub"
+	case `b.err=fmt.Errorf("unknownpropertyid0x%02x",id)`:
+		return "A_set_err_unknown"
+	}
+	switch x := s.(type) {
+	case *ast.ForStmt:
+		if x.Init == nil && x.Post == nil && x.Cond != nil && squash(p.src(x.Cond)) == "b.i<end" {
+			return "A_for_lt_end " + anyStmts(p, x.Body.List, constVal)
+		}
+	case *ast.IfStmt:
+		if x.Init == nil && x.Else == nil {
+			switch squash(p.src(x.Cond)) {
+			case "hasField":
+				return "A_if_hasField " + anyStmts(p, x.Body.List, constVal)
+			case "b.addSubscriptionID!=nil":
+				return "A_if_addSub " + anyStmts(p, x.Body.List, constVal)
+			}
+		}
+	case *ast.SwitchStmt:
+		if x.Init == nil && x.Tag != nil && squash(p.src(x.Tag)) == "id" {
+			var cases []string
+			def := "[]"
+			good := true
+			for _, cc := range x.Body.List {
+				cl := cc.(*ast.CaseClause)
+				if len(cl.List) == 0 {
+					def = anyStmts(p, cl.Body, constVal)
+					continue
+				}
+				if len(cl.List) != 1 {
+					good = false
+					continue
+				}
+				c, ok := constVal(cl.List[0])
+				if !ok {
+					good = false
+					continue
+				}
+				cases = append(cases, "("+c+"%N, "+anyStmts(p, cl.Body, constVal)+")")
+			}
+			if good {
+				return "A_switch_id [" + strings.Join(cases, "; ") + "] " + def
+			}
+		}
+	}
+	return fmt.Sprintf("A_unknown %q", src)
+}
+
+func genGetAny(p *pkg, out string) {
+	info, _ := p.typecheck()
+	constVal := func(e ast.Expr) (string, bool) {
+		if tv, ok := info.Types[e]; ok && tv.Value != nil {
+			return tv.Value.ExactString(), true
+		}
+		return "", false
+	}
+	body := `[A_unknown "missing"]`
+	if fd := p.funcs["buffer.getAny"]; fd != nil && fd.Body != nil {
+		sig := squash(p.src(fd.Type))
+		if len(fd.Recv.List) == 1 && len(fd.Recv.List[0].Names) == 1 {
+			sig = "(" + fd.Recv.List[0].Names[0].Name + squash(p.src(fd.Recv.List[0].Type)) + ")" + sig
+		}
+		if sig == "(b*buffer)func(fieldsmap[Ident]func()wireType,addPropfunc(UserProp))" {
+			body = anyStmts(p, fd.Body.List, constVal)
+		} else {
+			body = fmt.Sprintf("[A_unknown %q]", "signature "+sig)
+		}
+	}
+	// atEnd and Err, one expression each
+	one := func(key, want string) string {
+		if fd := p.funcs[key]; fd != nil && fd.Body != nil && len(fd.Body.List) == 1 {
+			return squash(p.src(fd.Body.List[0]))
+		}
+		return "missing " + want
+	}
+	defs := "(* generated by tools/gosync (wire.go) - do not edit *)\nFrom MQ Require Import Model.GetAnyIR.\nFrom Coq Require Import List NArith String.\nImport ListNotations.\nLocal Open Scope string_scope.\n\n" +
+		"(* buffer.getAny, statement by statement *)\nDefinition g_getany_prog : list astmt :=\n  " + body + ".\n\n" +
+		fmt.Sprintf("(* the bodies of buffer.atEnd and buffer.Err *)\nDefinition g_atEnd_body : string := %q.\nDefinition g_Err_body : string := %q.\n", one("buffer.atEnd", "atEnd"), one("buffer.Err", "Err"))
+	os.WriteFile(filepath.Join(out, "GenGetAny.v"), []byte(defs), 0o644)
+	lems := "(* generated by tools/gosync (wire.go) - do not edit *)\nFrom MQ Require Import Model.GetAnyIR gen.GenGetAny.\nFrom Coq Require Import List String.\n\n" +
+		"(* buffer.getAny is the statement list the model runs (Proofs/GetAnyIRP.v: running it is Codec.getany) *)\n" +
+		"Lemma sync_getany_prog : g_getany_prog = getany_prog.\nProof. vm_compute. reflexivity. Qed.\n\n" +
+		"(* b.atEnd() is `b.i == len(b.data)` (Codec.at_end), b.Err() is `b.err` *)\n" +
+		"Lemma sync_buffer_small : g_atEnd_body = \"returnb.i==len(b.data)\"%string /\\ g_Err_body = \"returnb.err\"%string.\nProof. split; reflexivity. Qed.\n"
+	os.WriteFile(filepath.Join(out, "SyncGetAny.v"), []byte(lems), 0o644)
+}
